@@ -10,6 +10,7 @@ a rejected promise has been told of the rejection.  Together with `fulfil_at_mos
 `…_partial`: the hypothesis `Quiescent` (termination of the cascade within the model's fuel) is not discharged.
 -/
 import PistacheModel.Lemmas.PromiseSched
+import PistacheModel.Lemmas.PromiseTerm
 import PistacheModel.Model.PromiseQ
 import PistacheModel.Props.C11NoThrow
 import PistacheModel.Props.C11Global
@@ -233,6 +234,119 @@ theorem rejected_continuation_told_partial (ops : List Op) (hwf : WF ops) (hq : 
     (hr : rq (execAll {} ops).1.cores c i = some r) (hf : Rejected (execAll {} ops).1.cores c) : 1 ≤ r.jc := by
   have hs := sched_execAll ops {} [] [] good_init data_init (fun p hp => by cases hp) hwf (quiescentFrom_of_B ops {} hq) rfl sched_init
   exact (sched_quiescent hs hr).2 hf
+
+/-! ### the hypothesis `Quiescent` is always met: the cascade terminates within the fuel -/
+
+theorem opQuiescent_of_good {roots : List Nat} (m : M) (op : Op) (g : Good roots m) (hwf : wfOp roots op) : opQuiescent m op := by
+  have o := g.own
+  unfold opQuiescent
+  cases op with
+  | new => trivial
+  | newResolved v => trivial
+  | newRejected e => trivial
+  | then_ p cb ret rej =>
+    simp only [preSettle]
+    have g1 := good_newCore_derived (m := m) {} rfl g
+    have o2 : Own roots (thenOn (m.newCore {}).1 p { kind := .user cb ret rej, chain := (m.newCore {}).2 }) := by
+      refine own_thenOn g1.own ⟨rfl, rfl⟩ ?_ ?_ (by simp [DataIn])
+      · intro _
+        refine ⟨?_, ?_, ?_, ?_⟩
+        · show m.cores.length < (m.cores ++ [({} : Core)]).length; rw [List.length_append, List.length_singleton]; omega
+        · intro c i y hy hyu hcc
+          have hy' : rq (m.cores ++ [({} : Core)]) c i = some y := hy
+          rw [rq_append_core m.cores ({} : Core) rfl] at hy'
+          have := o.c.bound c i y hy' (user_settler hyu)
+          have hcc' : y.chain = m.cores.length := hcc
+          omega
+        · intro hmem; have := o.rootsLt _ hmem; exact Nat.lt_irrefl _ this
+        · show stOf (m.cores ++ [({} : Core)]) m.cores.length = .pending
+          rw [stOf_append_new]
+      · intro hc; simp [Req.isChainer] at hc
+    exact settle_quiescent _ o2
+  | resolve p v =>
+    simp only [preSettle]
+    cases hpst : (m.core p).st with
+    | pending =>
+      have hp : Pending m.cores p := hpst
+      exact settle_quiescent _ (own_fulfilAndWalk (v := v) o (o.rootsLt p hwf) hp (root_not_doomed o.c hwf)
+        (fun c0 i0 r0 h0 hu0 hc0 => absurd hc0 (o.c.noHolder p hwf c0 i0 r0 h0 hu0)))
+    | fulfilled x => trivial
+    | rejected x => trivial
+  | reject p e =>
+    simp only [preSettle]
+    cases hpst : (m.core p).st with
+    | pending =>
+      have hp : Pending m.cores p := hpst
+      exact settle_quiescent _ (own_rejectAndWalk (e := e) o (o.rootsLt p hwf) hp
+        (fun c0 i0 r0 h0 hu0 hc0 => absurd hc0 (o.c.noHolder p hwf c0 i0 r0 h0 hu0)))
+    | fulfilled x => trivial
+    | rejected x => trivial
+  | whenAll ps =>
+    simp only [preSettle]
+    have gc := good_combinator g ps.length (ps.zipIdx.map fun (pi : Nat × Nat) => Act.attach pi.1 ({ kind := .allInput (m.newCore {}).1.datas.length pi.2, chain := 0 } : Req)) (by
+      intro a ha
+      simp only [List.mem_map] at ha
+      obtain ⟨pi, _, rfl⟩ := ha
+      exact ⟨pi.1, _, rfl, rfl, rfl, rfl, by show (m.newCore {}).1.datas.length < m.datas.length + 1; exact Nat.lt_succ_self _⟩)
+    exact settle_quiescent _ gc.own
+  | whenAny ps =>
+    simp only [preSettle]
+    have gc := good_combinator g ps.length (ps.map fun (p : Nat) => Act.attach p ({ kind := .anyInput (m.newCore {}).1.datas.length, chain := 0 } : Req)) (by
+      intro a ha
+      simp only [List.mem_map] at ha
+      obtain ⟨pi, _, rfl⟩ := ha
+      exact ⟨pi, _, rfl, rfl, rfl, rfl, by show (m.newCore {}).1.datas.length < m.datas.length + 1; exact Nat.lt_succ_self _⟩)
+    exact settle_quiescent _ gc.own
+
+theorem quiescentFrom_of_wf (ops : List Op) : ∀ (m : M) (roots news : List Nat), Good roots m → (∀ p ∈ news, p ∈ roots) →
+    WFfrom m news ops → QuiescentFrom m ops := by
+  induction ops with
+  | nil => intro m roots news g hsub hwf; trivial
+  | cons op rest ih =>
+    intro m roots news g hsub hwf
+    obtain ⟨h1, h2⟩ := hwf
+    have hw := wfOp_mono hsub h1
+    have ge := good_exec m op g hw
+    exact ⟨opQuiescent_of_good m op g hw, ih (exec m op).1 _ _ ge.1 (news_step m op hsub) h2⟩
+
+/-- L1 (exactly when fulfilled — the "when" direction, unconditional): in the final state of ANY well-formed program every
+    continuation attached to a FULFILLED promise has run: its resolve counter is spent and its callback appears in the log. -/
+theorem fulfilled_continuation_ran (ops : List Op) (hwf : WF ops) (c i : Nat) (r : Req) (cb : Nat) (ret : Ret) (rej : Rej)
+    (hr : rq (execAll {} ops).1.cores c i = some r) (hk : r.kind = .user cb ret rej) (hf : Fulfilled (execAll {} ops).1.cores c) :
+    1 ≤ r.rc ∧ ∃ a, Ev.call cb a ∈ (execAll {} ops).1.log := by
+  have hq := quiescentFrom_of_wf ops {} [] [] good_init (fun p hp => by cases hp) hwf
+  have hs := sched_execAll ops {} [] [] good_init data_init (fun p hp => by cases hp) hwf hq rfl sched_init
+  have h1 : 1 ≤ r.rc := (sched_quiescent hs hr).1 hf
+  refine ⟨h1, ?_⟩
+  have hacc := (inv_execAll ops {} _ _ inv_init).acc.calls cb
+  obtain ⟨k, hk1, hk2⟩ := rq_mem hr
+  have hge := tally_ge_elem (rcOf cb) (execAll {} ops).1.cores k hk1 r hk2
+  have hrc : rcOf cb r = r.rc := by unfold rcOf; rw [hk]; simp
+  exact callCount_pos (by omega)
+
+/-- L2 (unconditional): every continuation attached to a REJECTED promise has been told of the rejection -/
+theorem rejected_continuation_told (ops : List Op) (hwf : WF ops) (c i : Nat) (r : Req)
+    (hr : rq (execAll {} ops).1.cores c i = some r) (hf : Rejected (execAll {} ops).1.cores c) : 1 ≤ r.jc := by
+  have hq := quiescentFrom_of_wf ops {} [] [] good_init (fun p hp => by cases hp) hwf
+  have hs := sched_execAll ops {} [] [] good_init data_init (fun p hp => by cases hp) hwf hq rfl sched_init
+  exact (sched_quiescent hs hr).2 hf
+
+/-- L3: a custom rejection handler attached to a rejected promise has run -/
+theorem rejected_handler_ran (ops : List Op) (hwf : WF ops) (c i : Nat) (r : Req) (cb0 h : Nat) (ret : Ret)
+    (hr : rq (execAll {} ops).1.cores c i = some r) (hk : r.kind = .user cb0 ret (.custom h)) (hf : Rejected (execAll {} ops).1.cores c) :
+    ∃ e, Ev.callRej h e ∈ (execAll {} ops).1.log := by
+  have h1 := rejected_continuation_told ops hwf c i r hr hf
+  have hacc := (inv_execAll ops {} _ _ inv_init).acc.rejs h
+  obtain ⟨k, hk1, hk2⟩ := rq_mem hr
+  have hge := tally_ge_elem (jcOf h) (execAll {} ops).1.cores k hk1 r hk2
+  have hjc : jcOf h r = r.jc := by unfold jcOf; rw [hk]; simp
+  have hpos : 0 < rejCount h (execAll {} ops).1.log := by omega
+  unfold rejCount at hpos
+  obtain ⟨ev, he, hp⟩ := List.countP_pos_iff.mp hpos
+  cases ev with
+  | call c' a => simp at hp
+  | callRej c' x => simp at hp; subst hp; exact ⟨x, he⟩
+  | internalThrow c' => simp at hp
 
 /-! ### Non-vacuity (tests): the hypotheses hold for concrete programs with chains and both combinators -/
 example : Quiescent sample := by unfold Quiescent; decide +kernel
